@@ -495,8 +495,21 @@ def run_scenario(ctx, case):
         return problems, 1
     ctx.count("created.%s.%s" % (kind, path))
     judged = 1
-    # ---- mutator calls
-    for call in case["calls"]:
+    # ---- mutator calls; the record may be *read* in between (accessors, printing, hashing): reading is not a call of the
+    # statement and must not change what the next call does
+    import zlib
+    for ci, call in enumerate(case["calls"]):
+        if zlib.crc32(repr((case["kind"], ci, len(case["calls"]))).encode()) % 2 == 0:
+            try:
+                rec.args, rec.formal_attributes, rec.extra_attributes, rec.attributes
+                rec.get_attribute(PROV["type"]), rec.get_attribute("prov:location"), rec.label, rec.value, rec.get_asserted_types()
+                repr(rec), rec.get_provn(), hash(rec), rec == rec
+                if hasattr(rec, "get_startTime"):
+                    rec.get_startTime(), rec.get_endTime()
+                ctx.count("reads_between_calls")
+            except Exception as ex_:
+                problems.append("reading the record raised %s: %s" % (type(ex_).__name__, str(ex_)[:120]))
+                break
         m = call["m"]
         if m == "set_time":
             if not hasattr(rec, "set_time"):
@@ -660,7 +673,7 @@ def floors(counters, tier, extra):
               "call.set_time.str", "call.set_time.dt", "formal_pair.ref", "formal_pair.time", "call.add_asserted_type.native_lit",
               "program_cases", "corpus.loaded", "creation.alias_method", "creation.extras_as_dict", "creation.keyword_arguments",
               "creation.subtype_factory.revision", "creation.subtype_factory.quotation", "creation.subtype_factory.primary_source",
-              "creation.subtype_factory.collection"):
+              "creation.subtype_factory.collection", "reads_between_calls"):
         if counters.get(k, 0) < need // 4:
             out.append("%s observed only %d times" % (k, counters.get(k, 0)))
     if tier == "thorough" and counters.get("suite.NF.evaluations", 0) < 1000:
